@@ -191,8 +191,10 @@ CHECKS["C09"] = {
 }
 _b("C10", "bounded: 7 built-in + pinned + generated user unit systems and code-unit registries x all 145 table atoms x "
           "compounds: same quantity, atoms inside the system, back conversion, agreement with get_base_equivalent and the "
-          "in-place twins, idempotence, immediate usability, rejection of inconsistent bases; proved (unbounded): the numeric "
-          "conversion step preserves the SI magnitude for all scales. The synthesis of the target unit is sympy factorisation: "
+          "in-place twins, idempotence, immediate usability, rejection of inconsistent bases, histories of re-defined systems; "
+          "proved (unbounded): the numeric conversion step preserves the SI magnitude for all scales; "
+          "Unit.get_base_equivalent, for an ARBITRARY unit system, returns a Unit bound to the registry of the unit being "
+          "converted. The synthesis of the target unit is sympy factorisation: "
           "out of the verifier's reach")
 _b("C11", "bounded: 21 restoration routes (pickle protocols, copies, savetxt/loadtxt, str/repr re-parse, JSON) x registries x "
           "about 185 follow-up operations on original and restored objects in both orders, including the registry every result "
